@@ -14,8 +14,10 @@ RULE = ("random surfaces of 1-3 D x 11 numeric dtypes (floats as exact quarter-i
         "3-valued surfaces on grids <=2x3 x all placements of up to two markers x cross/box. Non-trivial: >=1 marker and "
         "surface not constant")
 NOT_PROVED = ["std::priority_queue is modelled by its specification (top = greatest under the re-translated operator<)",
-              "exactness of the lines image is checked on every case against the definition, not yet stated as a Coq theorem "
-              "(markers kept, every labelled pixel linked to its own marker, the rest 0 ARE theorems)"]
+              "the lines image is DEFINED operationally by the property (set where a queued pixel is visited from another label): the "
+              "theorems are that the code's flood with the margin shortcut equals the flood with explicit checks (labels and lines), "
+              "that markers are kept, that the labelled pixels are exactly the reachable ones and that the queue is empty at exit; the "
+              "tie of the hand-written model to _morph.cpp is the correspondence check"]
 BUDGET_S = {"quick": 110, "thorough": 1200}
 DTYPES = ["uint8", "int8", "uint16", "int16", "uint32", "int32", "uint64", "int64", "float32", "float64"]
 
